@@ -409,7 +409,9 @@ func (impl Implementation) Dgesvd(jobU, jobVT lapack.SVDJob, m, n int, a []float
 				impl.Dgeqrf(m, n, a, lda, work[itau:itau+n], work[iwork:], lwork-iwork)
 
 				// Zero out below R.
-				impl.Dlaset(blas.Lower, n-1, n-1, 0, 0, a[lda:], lda)
+				if n > 1 {
+					impl.Dlaset(blas.Lower, n-1, n-1, 0, 0, a[lda:], lda)
+				}
 				ie = 0
 				itauq := ie + n
 				itaup := itauq + n
@@ -503,7 +505,9 @@ func (impl Implementation) Dgesvd(jobU, jobVT lapack.SVDJob, m, n int, a []float
 						iwork = itaup + n
 
 						// Zero out below R in A.
-						impl.Dlaset(blas.Lower, n-1, n-1, 0, 0, a[lda:], lda)
+						if n > 1 {
+							impl.Dlaset(blas.Lower, n-1, n-1, 0, 0, a[lda:], lda)
+						}
 
 						// Bidiagonalize R in A.
 						impl.Dgebrd(n, n, a, lda, s, work[ie:],
@@ -685,7 +689,9 @@ func (impl Implementation) Dgesvd(jobU, jobVT lapack.SVDJob, m, n int, a []float
 						iwork = itaup + n
 
 						// Zero out below R in A.
-						impl.Dlaset(blas.Lower, n-1, n-1, 0, 0, a[lda:], lda)
+						if n > 1 {
+							impl.Dlaset(blas.Lower, n-1, n-1, 0, 0, a[lda:], lda)
+						}
 
 						// Bidiagonalize R in A.
 						impl.Dgebrd(n, n, a, lda, s, work[ie:],
